@@ -497,6 +497,8 @@ class PDPRuinRepairEnv(ImprovementEnvBase):
             visited_time[arange, solution[arange, pre]] = i + 1
             pre = solution[arange, pre]
 
+        # nodes never reached from the depot belong to another cycle: the successor array is not one tour
+        assert (visited_time > 0).all(), "Not a single tour"
         assert (
             visited_time[:, 1 : graph_size // 2 + 1]
             < visited_time[:, graph_size // 2 + 1 :]
